@@ -170,6 +170,24 @@ PROPS["C10"] = {
     "standins": {f: {"driver": INDEX_EXPLORE, "bound": _IDX_BOUND} for f in [_IDX + "reset", _IDX + "add_values", _IDX + "get_values"]},
     "bounded_always": {"xandikos.store.Store.iter_with_filter": {"driver": INDEX_EXPLORE, "bound": _IDX_BOUND}},
 }
+DISCOVERY = "discovery_explore.py"
+_DISC_BOUND = ("2 front ends, started through their real entry points (xandikos.web.main up to socket setup; import of xandikos.wsgi) x 4 "
+               "route prefixes ('/', '/dav', '/dav/', '/a/b/') x 4 principal paths (with/without trailing slash, nested) x restart sequences "
+               "(none, with --defaults again, without any flag; thorough: both orders) after a first start with --defaults; a bare git "
+               "calendar is provisioned into the home set and one PUT is made before the restarts; every href is resolved as a client "
+               "would (RFC 3986) and only returned hrefs are followed; the .well-known redirect must point at the route prefix")
+PROPS["C18"] = {
+    "level": "other",
+    "functions": ["xandikos.web.create_principal_defaults", G + "TreeGitStore.subdirectories"],
+    "explanation": "Under contract: the (re)start step that creates the default collections attempts exactly the three default paths, sets a "
+                   "type only on what it has just created and never removes anything; the Depth 1 listing of a home set is made of every "
+                   "sub-directory except git's control directory. The discovery chain itself (current-user-principal, home sets, listing, "
+                   "front ends, prefixes, restarts) is a whole-deployment property: covered by the bounded discovery explorer only.",
+    "replay": {"xandikos.web.create_principal_defaults": DISCOVERY, G + "TreeGitStore.subdirectories": DISCOVERY},
+    "standins": {"xandikos.web.create_principal_defaults": {"driver": DISCOVERY, "bound": _DISC_BOUND},
+                 G + "TreeGitStore.subdirectories": {"driver": DISCOVERY, "bound": _DISC_BOUND}},
+    "bounded_always": {"xandikos.web.main": {"driver": DISCOVERY, "bound": _DISC_BOUND}},
+}
 PROPS["C13"] = {
     "level": "proof",
     "functions": [WEB + "XandikosBackend._map_to_file_path", WEB + "XandikosBackend.get_resource",
@@ -182,7 +200,9 @@ PROPS["C13"] = {
 PROPS["C16"] = {
     "level": "proof",
     "functions": [W + "ensure_trailing_slash", W + "create_href", W + "read_href_element", W + "href_to_path",
-                  W + "traverse_resource", W + "PostMethod.handle"],
+                  W + "traverse_resource", W + "PostMethod.handle",
+                  WEB + "StoreBasedCollection.members", WEB + "StoreBasedCollection.subcollections",
+                  WEB + "StoreBasedCollection._get_subcollection", G + "TreeGitStore.subdirectories", G + "GitStore.iter_with_etag"],
 }
 PROPS["C17"] = {
     "level": "other",
@@ -191,6 +211,10 @@ PROPS["C17"] = {
                    "the href codec are discharged; 'each distinct href exactly once' is covered only by the bounded HTTP "
                    "stand-in (DESIGN 6/C17).",
 }
+for _f in (WEB + "StoreBasedCollection.members", WEB + "StoreBasedCollection.subcollections",
+           WEB + "StoreBasedCollection._get_subcollection", G + "TreeGitStore.subdirectories"):
+    PROPS["C16"].setdefault("replay", {})[_f] = HTTP
+    PROPS["C16"].setdefault("standins", {})[_f] = {"driver": HTTP, "bound": "MKCOL / MKCALENDAR / DELETE of sub-collections of a home set, a restart, each followed by a Depth 1 PROPFIND whose response hrefs must be exactly the existing members; " + _HTTP_BOUND}
 for _pid in ("C01", "C02", "C03", "C13", "C16", "C17"):
     for _f in PROPS[_pid]["functions"]:
         if _f.startswith(W) or "XandikosBackend" in _f:
